@@ -29,7 +29,8 @@ PROPS["C20"] = dict(
                 "gen_registers_checked": 16 * 8000}},
     ready=True,
     technique="runtime monitoring: layout-table model vs the real RegisterState accessors and instructions; three-way "
-              "comparison interpreter / annotated disassembler / test generator through the table's decoding of ar/arp",
+              "comparison interpreter / annotated disassembler / test generator through the table's decoding of ar/arp; "
+              "the annotated disassembler under concurrent callers (behavioural comparison + ThreadSanitizer)",
     level_text="Complete enumeration of the written-value axis: every 16-bit value of each of the 19 words (and of the six ar/arp "
                "words for the three-way clause) is written and every word read back, from a sample of random well-formed "
                "register states (counts in evidence); the instruction-level paths and the generator stream are sampled.",
